@@ -3,6 +3,7 @@ package props
 import (
 	"encoding/hex"
 	"fmt"
+	"regexp"
 	"sort"
 	"strings"
 
@@ -173,13 +174,19 @@ func (c *Ctx) orderCheck(items []orderItem, st *orderStats, sample bool) {
 		o0 := at[ref{i, 0}]
 		c0 := loadClass(o0)
 		if c0 == "err" && LoadTemplateOf(errMessage(o0)) == "" {
-			continue // a parse error: the parser's business
+			c0 = "parse-err" // not a loader message: the text does not parse
 		}
 		for v := 1; v < len(it.variants); v++ {
 			ov := at[ref{i, v}]
 			cv := loadClass(ov)
 			if cv == "err" && LoadTemplateOf(errMessage(ov)) == "" {
-				continue
+				cv = "parse-err"
+			}
+			if c0 == "parse-err" && cv == "parse-err" {
+				continue // the text parses in no arrangement: the parser's business
+			}
+			if (c0 == "parse-err" || cv == "parse-err") && it.label == "sdl" {
+				continue // token-level splits of mutated text may cut a definition in two
 			}
 			if c0 != cv {
 				tmpl := LoadTemplateOf(errMessage(o0)) + LoadTemplateOf(errMessage(ov))
@@ -246,7 +253,7 @@ func (c *Ctx) orderCheck(items []orderItem, st *orderStats, sample bool) {
 		r7b := map[int]bool{}
 		for j, k := range widx {
 			fails, _ := failingClauses(wres[j])
-			r7b[k] = containsStr(fails, "S.uniqueDirectiveNames")
+			r7b[k] = containsStr(fails, "S.uniqueDirectiveNames") && onlyBuiltinDirectivesRedeclared(docs[k])
 		}
 		for k, d := range diffs {
 			sig := d.sig
@@ -269,6 +276,30 @@ func (c *Ctx) orderCheck(items []orderItem, st *orderStats, sample bool) {
 			}
 		}
 	}
+}
+
+var ddNameRe = regexp.MustCompile(`\(DD x[0-9a-f]* x([0-9a-f]*)`)
+
+// onlyBuiltinDirectivesRedeclared: every directive name declared more than once in the merged
+// document (S-expression) is one of the prelude's directives — the recorded finding R7b is about
+// those only; a user directive declared twice must be rejected in every arrangement.
+func onlyBuiltinDirectivesRedeclared(sexp string) bool {
+	builtin := map[string]bool{"skip": true, "include": true, "deprecated": true, "specifiedBy": true, "defer": true, "oneOf": true}
+	n := map[string]int{}
+	for _, m := range ddNameRe.FindAllStringSubmatch(sexp, -1) {
+		b, _ := hex.DecodeString(m[1])
+		n[string(b)]++
+	}
+	dup := false
+	for name, k := range n {
+		if k > 1 || (k == 1 && builtin[name]) { // the prelude (source 0) declares the builtin ones once already
+			if !builtin[name] {
+				return false
+			}
+			dup = true
+		}
+	}
+	return dup
 }
 
 // flush reports every order-dependence finding with the smallest pair seen in the whole run.
@@ -395,6 +426,7 @@ func checkC17(c *Ctx) {
 		c.orderCheck(items, st, false)
 		corr(items)
 	}
+	c.loadHistoryCheck()
 	c.orderFlush(st)
 	if st.msgVariesEx[0] != "" {
 		fmt.Printf("  (example of another message in another order: %s vs %s)\n", describeObs(st.msgVariesEx[0]), describeObs(st.msgVariesEx[1]))
@@ -416,4 +448,66 @@ func checkC17(c *Ctx) {
 func init() {
 	Checks["C17"] = checkC17
 	Checks["X-loadorder"] = checkC17 // scratch alias: same run without the known-findings filter of C17
+}
+
+// loadHistoryCheck: a load must not depend on what was loaded before in the same process, nor on
+// the entry point: gqlparser.LoadSchema(sources…) after a history of other loads (some of which
+// extend types of the prelude) must equal validator.LoadSchema(prelude, sources…) in a fresh process.
+func (c *Ctx) loadHistoryCheck() {
+	extenders := []string{
+		"directive @zztag(name: String) on SCALAR | OBJECT | ENUM | ENUM_VALUE | FIELD_DEFINITION\nextend scalar String @zztag(name: \"text\")\nextend scalar ID @zztag\ntype Query { a: Int }",
+		"extend type __Type { zzExtra: Int }\ntype Query { a: Int }",
+		"extend enum __TypeKind { ZZ_EXTRA }\nextend type __Schema { zzMore: String }\ntype Query { a: Int }",
+		"directive @zztag on OBJECT\nextend type __Field @zztag\nextend type __Directive { zz: Boolean }\ntype Query { a: Int }",
+	}
+	var reqs, fresh []string
+	type ref struct{ lo, n int }
+	var refs []ref
+	for i := 0; i < c.Pick(150, 1500); i++ {
+		r := c.R.Fork(uint64(i) + 23_000_000)
+		var hist [][]string
+		for k := 1 + r.Intn(4); k > 0; k-- {
+			switch r.Intn(3) {
+			case 0:
+				hist = append(hist, []string{extenders[r.Intn(len(extenders))]})
+			case 1:
+				hist = append(hist, gen.GenSchema(r, r.Intn(8)).Render(r, 1+r.Intn(3)))
+			default:
+				f := gen.InjectSchemaFault(r, gen.GenSchema(r, r.Intn(8)))
+				hist = append(hist, f.Sources)
+			}
+		}
+		if r.Bool() {
+			hist = append(hist, hist[0]) // the same sources again
+		}
+		var parts []string
+		refs = append(refs, ref{len(fresh), len(hist)})
+		for _, set := range hist {
+			parts = append(parts, hexAll(set))
+			fresh = append(fresh, "loadcanon "+hexAll(set))
+		}
+		reqs = append(reqs, "loadhist "+strings.Join(parts, " | "))
+	}
+	hres := c.Worker.Map(reqs)
+	fres := c.Worker.Map(fresh)
+	n := 0
+	for i, rf := range refs {
+		got := strings.Split(hres[i], ";;")
+		if len(got) != rf.n {
+			c.Report("runtime", "load-history-crash", fmt.Sprintf("history of %d loads: %s", rf.n, clipL(hres[i])), map[string]any{"op": "loadhist", "request": reqs[i]})
+			continue
+		}
+		for k := 0; k < rf.n; k++ {
+			n++
+			c.Ev.Case("hist:"+fres[rf.lo+k], k > 0)
+			if got[k] != fres[rf.lo+k] {
+				da, db := firstDiffLine(showCanon(got[k]), showCanon(fres[rf.lo+k]))
+				c.Report("spec", "load-depends-on-history-or-entry-point", fmt.Sprintf("load #%d of a history through gqlparser.LoadSchema gives [%s], the same sources loaded alone give [%s]", k+1, clipL(da), clipL(db)),
+					map[string]any{"op": "loadhist", "request": reqs[i], "position": k, "fresh_request": fresh[rf.lo+k]})
+				break
+			}
+		}
+	}
+	c.Ev.Count("history-loads", n)
+	fmt.Printf("  load histories: %d loads in %d histories through gqlparser.LoadSchema, each equal to the fresh validator.LoadSchema\n", n, len(refs))
 }
